@@ -984,7 +984,7 @@ where
                 // The candidate is too big to fit in the cache. Reject it.
                 #[cfg(mini_moka_verif)]
                 {
-                    crate::verif::probe("loss.rejected", kh.hash);
+                    crate::verif::probe("loss.oversized", kh.hash);
                     crate::verif::sp("sync.reject");
                     crate::verif::map_probe(&|| self.cache.try_get_mut(&kh.key).is_locked());
                 }
@@ -1053,7 +1053,12 @@ where
                     {
                         // And then remove the victim from the deques.
                         #[cfg(mini_moka_verif)]
-                        crate::verif::probe("loss.victim", vic_elem.hash());
+                        self.verif_loss(
+                            ("loss.victim", "lossz.gone.victim", "lossz.dead.victim"),
+                            vic_elem.hash(),
+                            &deqs.probation,
+                            &deqs.write_order,
+                        );
                         Self::handle_remove(deqs, vic_entry, counters);
                     } else {
                         // Could not remove the victim from the cache. Skip this
@@ -1074,7 +1079,12 @@ where
                 // Remove the candidate from the cache (hash map).
                 #[cfg(mini_moka_verif)]
                 {
-                    crate::verif::probe("loss.rejected", kh.hash);
+                    self.verif_loss(
+                        ("loss.rejected", "lossz.gone.rejected", "lossz.dead.rejected"),
+                        kh.hash,
+                        &deqs.probation,
+                        &deqs.write_order,
+                    );
                     crate::verif::sp("sync.reject");
                     crate::verif::map_probe(&|| self.cache.try_get_mut(&kh.key).is_locked());
                 }
@@ -1569,7 +1579,12 @@ where
 
             if let Some((_k, entry)) = maybe_entry {
                 #[cfg(mini_moka_verif)]
-                crate::verif::probe("loss.lru_evicted", self.build_hasher.hash_one(&*key));
+                self.verif_loss(
+                    ("loss.lru_evicted", "lossz.gone.lru_evicted", "lossz.dead.lru_evicted"),
+                    self.build_hasher.hash_one(&*key),
+                    deq,
+                    write_order_deq,
+                );
                 let weight = entry.entry_info().accounted_weight();
                 Self::handle_remove_with_deques(DEQ_NAME, deq, write_order_deq, entry, counters);
                 evicted = evicted.saturating_add(weight as u64);
@@ -1604,6 +1619,68 @@ where
 //
 // verification hooks (read-only)
 //
+#[cfg(mini_moka_verif)]
+impl<K, V, S> Inner<K, V, S>
+where
+    K: Hash + Eq + Send + Sync + 'static,
+    V: Send + Sync + 'static,
+    S: BuildHasher + Clone + Send + Sync + 'static,
+{
+    /// Cause probe helper: reports through which path a key is lost to capacity pressure
+    /// (`loss.<path>`), and whether at that moment the deques hold an entry that only
+    /// *looks* resident: one whose incarnation has left the map (`lossz.gone.<path>`) or a
+    /// dead (expired / invalidated) one behind a live one, out of the purge's reach
+    /// (`lossz.dead.<path>`).
+    fn verif_loss(
+        &self,
+        path: (&'static str, &'static str, &'static str),
+        hash: u64,
+        probation: &Deque<KeyHashDate<K>>,
+        write_order: &Deque<KeyDate<K>>,
+    ) {
+        crate::verif::probe(path.0, hash);
+        if !crate::verif::active() {
+            return;
+        }
+        let now = self.current_time_from_expiration_clock();
+        let (ttl, tti, va) = (&self.time_to_live, &self.time_to_idle, &self.valid_after());
+        let mut errs = Vec::new();
+        let (mut gone, mut dead) = (false, false);
+        let mut live_seen = false;
+        for n in probation.verif_walk("probation", &mut errs) {
+            let node = unsafe { n.as_ref() };
+            let elem = &node.element;
+            let is_gone = !self
+                .cache
+                .get(elem.key())
+                .map(|e| std::ptr::eq(&**e.entry_info(), elem.entry_info()))
+                .unwrap_or(false);
+            if is_gone {
+                gone = true;
+            } else if is_expired_entry_ao(tti, va, node, now) {
+                dead |= live_seen;
+            } else {
+                live_seen = true;
+            }
+        }
+        let mut live_seen = false;
+        for n in write_order.verif_walk("write_order", &mut errs) {
+            let node = unsafe { n.as_ref() };
+            if is_expired_entry_wo(ttl, va, node, now) {
+                dead |= live_seen;
+            } else {
+                live_seen = true;
+            }
+        }
+        if gone {
+            crate::verif::probe(path.1, hash);
+        }
+        if dead {
+            crate::verif::probe(path.2, hash);
+        }
+    }
+}
+
 #[cfg(mini_moka_verif)]
 impl<K, V, S> BaseCache<K, V, S>
 where
